@@ -25,6 +25,34 @@ class Node(object):
     def lineno(self):
         return getattr(self.ast, 'lineno', None)
 
+    def own(self):
+        """The AST sub-trees evaluated *at* this node (a `with` node only
+        evaluates its context expressions, a `for` node only binds its
+        target, def/class statements evaluate nothing of their body)."""
+        a = self.ast
+        if a is None:
+            return []
+        if self.kind == 'with':
+            return [it.context_expr for it in a.items]
+        if self.kind == 'for':
+            return [a.target]
+        if self.kind == 'handler':
+            return [a.type] if a.type is not None else []
+        if self.kind == 'finally':
+            return []
+        if isinstance(a, (ast.FunctionDef, ast.AsyncFunctionDef,
+                          ast.ClassDef)):
+            return list(a.decorator_list)
+        return [a]
+
+    def walk(self):
+        for root in self.own():
+            for x in ast.walk(root):
+                yield x
+
+    def calls(self):
+        return [x for x in self.walk() if isinstance(x, ast.Call)]
+
     def __repr__(self):
         if self.ast is None:
             return '<%s>' % self.kind
